@@ -165,7 +165,54 @@ func clip(s string) string {
 	return s
 }
 
-const keyGatedRoot = "F-13f-gated-root-operation-type"
+const keyGatedDirArg = "F-13g-gated-directive-argument-type"
+
+// classifyDirArg — F-13g (= C10's F-10g seen from C13): the schema has a directive argument whose type
+// is hidden under F; the request selects `directives` or applies such a directive; the responses
+// differ; and the counterfactual holds: the same case with exactly those arguments deleted from the
+// directive definitions of S does not fail.
+func classifyDirArg(c *Case, what string) string {
+	if c.Spec == nil || c.Via != "" || !strings.HasPrefix(what, "response differs") {
+		return ""
+	}
+	hidden := hiddenDirectiveArgs(c.Spec, fset(c.F))
+	if len(hidden) == 0 {
+		return ""
+	}
+	text := c.Query.Text
+	if c.Doc != nil {
+		text = c.Doc.text()
+	}
+	mentions := strings.Contains(text, "directives")
+	for _, h := range hidden {
+		if strings.Contains(text, "@"+h[:strings.IndexByte(h, '.')]) {
+			mentions = true
+		}
+	}
+	if !mentions {
+		return ""
+	}
+	cf := *c
+	cf.Spec = c.Spec.clone()
+	hid := map[string]bool{}
+	for _, h := range hidden {
+		hid[h] = true
+	}
+	for di := range cf.Spec.Directives {
+		d := &cf.Spec.Directives[di]
+		var keep []ArgSpec
+		for _, a := range d.Args {
+			if !hid[d.Name+"."+a.Name] {
+				keep = append(keep, a)
+			}
+		}
+		d.Args = keep
+	}
+	if failsSame(&cf) != "" {
+		return ""
+	}
+	return keyGatedDirArg
+}
 
 // classify attaches a finding key to a failing case (narrow predicates; "" = unknown failure).
 //
@@ -175,34 +222,10 @@ const keyGatedRoot = "F-13f-gated-root-operation-type"
 // holds: the very same case with the requirement taken off the root type (nothing else changed)
 // does not fail. A failure that survives the counterfactual is a different failure.
 func classify(c *Case, what string) string {
-	if c.Spec == nil || c.Via != "" {
-		return ""
+	if k := classifyDirArg(c, what); k != "" {
+		return k
 	}
-	roots := gatedRoots(c.Spec, c.F)
-	if len(roots) == 0 {
-		return ""
-	}
-	text := c.Query.Text
-	if c.Doc != nil {
-		text = c.Doc.text()
-	}
-	trimmed := strings.TrimSpace(text)
-	isRootOp := strings.HasPrefix(trimmed, "mutation") || strings.HasPrefix(trimmed, "subscription")
-	switch {
-	case strings.HasPrefix(what, "response differs") && (isRootOp || strings.Contains(text, "mutationType") || strings.Contains(text, "subscriptionType")):
-	case strings.HasPrefix(what, "gated resolver invoked") && isRootOp:
-	default:
-		return ""
-	}
-	cf := *c
-	cf.Spec = c.Spec.clone()
-	for _, n := range roots {
-		cf.Spec.find(n).Req = nil
-	}
-	if failsSame(&cf) != "" {
-		return ""
-	}
-	return keyGatedRoot
+	return ""
 }
 
 func subsets(fs []string) [][]string {
@@ -526,10 +549,11 @@ func (h *harness) checkSpec(spec *Spec, r *hx.Rand, nDocs int, sample bool) {
 		run.Count("reject:" + rejectClass(realErr.Error()))
 	}
 	if h.model != nil {
+		dirTies = h.ask(dirSexp(origX).String()) == "ok"
 		rep := h.ask(hx.N("schema", specSexp(origX)).String())
 		modelOK := strings.HasPrefix(rep, "(accepted true")
 		ok := modelOK == realOK && (strings.HasPrefix(rep, "(accepted "))
-		goRoots := len(spec.find(spec.Query).Req) == 0 && len(gatedRoots(spec, nil)) == 0
+		goRoots := len(spec.find(spec.Query).Req) == 0 // RootsUngated is about the query root only since fix 04
 		if realOK && strings.Contains(rep, "rootsUngated") != goRoots {
 			ok = false
 		}
@@ -583,6 +607,15 @@ func (h *harness) checkSpec(spec *Spec, r *hx.Rand, nDocs int, sample bool) {
 				detail = fmt.Sprintf("F=%v model %.300s vs harness %.300s (%v)", F, rep, canonSpec(expand(env.erasedSp)), err)
 				run.Violate("correspondence", "model erase differs from harness eraseSpec: "+detail, "", true, &Case{Spec: spec, F: F})
 			}
+			if ok && dirTies {
+				rep := h.ask("(erasedirs " + featSexp(F) + ")")
+				md, err := parseDirSexp(rep)
+				if err != nil || canonDirList(md) != canonDirList(allDirectives(env.erasedSp)) {
+					ok = false
+					detail = fmt.Sprintf("F=%v erased directives: model %.200s vs harness %s (%v)", F, rep, canonDirList(allDirectives(env.erasedSp)), err)
+					run.Violate("correspondence", "model erase differs from harness eraseSpec: "+detail, "", true, &Case{Spec: spec, F: F})
+				}
+			}
 			run.Oblige(obErase, "correspondence", 1, ok, detail)
 
 			mv, err := modelViewLines(h.ask("(view " + featSexp(F) + ")"))
@@ -603,6 +636,11 @@ func (h *harness) checkSpec(spec *Spec, r *hx.Rand, nDocs int, sample bool) {
 					h.viewMismatch(spec, F, "view(S,F): model(-) vs real(+): "+d, env, probes)
 				}
 				// the erased schema under all features: the gf lines of erased-away types do not exist there
+				if len(hiddenDirectiveArgs(spec, fset(F))) > 0 {
+					// DirArgsVisible fails: the directive lines are outside the theorems' domain (F-13g)
+					run.Count("F:hides-a-directive-argument-type")
+					mv = dropDirLines(mv)
+				}
 				if rootHidden(spec, F) {
 					// RootsUngated fails and F hides a root type: outside the theorems' domain (F-13f)
 					run.Count("F:hides-a-root-type")
@@ -613,6 +651,9 @@ func (h *harness) checkSpec(spec *Spec, r *hx.Rand, nDocs int, sample bool) {
 						d = err.Error()
 					} else {
 						rv2 = append(rv2, realResolveCandidates(env.erased, env.erasedW, env.all, origX, expand(env.erasedSp), spec)...)
+						if len(hiddenDirectiveArgs(spec, fset(F))) > 0 {
+							rv2 = dropDirLines(rv2)
+						}
 						d = diffLines(observableRC(filterGF(mv, env.erasedSp), rv2), rv2)
 					}
 					run.Oblige(obViewErase, "correspondence", len(mv), d == "", d)
@@ -711,6 +752,52 @@ func (h *harness) checkSpec(spec *Spec, r *hx.Rand, nDocs int, sample bool) {
 	_ = nontrivial
 }
 
+func dropDirLines(lines []string) []string {
+	var out []string
+	for _, l := range lines {
+		if strings.HasPrefix(l, "dir ") || strings.HasPrefix(l, "da ") {
+			continue
+		}
+		out = append(out, l)
+	}
+	return out
+}
+
+func canonDirList(ds []DirSpec) string {
+	var out []string
+	for _, d := range ds {
+		var as []string
+		for _, a := range d.Args {
+			as = append(as, a.Name+":"+a.Type)
+		}
+		sort.Strings(as)
+		out = append(out, "@"+d.Name+"("+strings.Join(as, ",")+")")
+	}
+	sort.Strings(out)
+	return strings.Join(out, " ")
+}
+
+func parseDirSexp(s string) ([]DirSpec, error) {
+	x, err := hx.ParseSexp(s)
+	if err != nil || !x.IsList || len(x.List) == 0 || x.List[0].Atom != "directives" {
+		return nil, fmt.Errorf("not a directives reply: %.100s (%v)", s, err)
+	}
+	var out []DirSpec
+	for _, d := range x.List[1:] {
+		if !d.IsList || len(d.List) != 2 {
+			return nil, fmt.Errorf("bad directive %s", d.String())
+		}
+		ds := DirSpec{Name: d.List[0].Atom}
+		for _, a := range d.List[1].List {
+			if len(a.List) == 2 {
+				ds.Args = append(ds.Args, ArgSpec{a.List[0].Atom, a.List[1].Atom})
+			}
+		}
+		out = append(out, ds)
+	}
+	return out, nil
+}
+
 // observableRC keeps, of the model's type-resolution lines, those about abstract types the real
 // side could observe (there is a callable Query field returning them).
 func observableRC(model, real []string) []string {
@@ -744,25 +831,11 @@ func gatedRoots(spec *Spec, F []string) []string {
 	return out
 }
 
-// rootsFixed: the library under test treats a gated mutation / subscription root type as absent (fix
-// 04). Detected at start-up (probeRootsFix), so that the same harness is right before and after the fix
-// is applied to /repo; then nothing is outside the theorems' domain on account of the roots.
-var rootsFixed bool
+// Since fix 04 (3d2f635) a gated mutation / subscription root type is treated as absent by the library,
+// which is what erase does: nothing is outside the theorems' domain on account of those roots.
+const rootsFixed = true
 
-func rootHidden(spec *Spec, F []string) bool { return !rootsFixed && len(gatedRoots(spec, F)) > 0 }
-
-func probeRootsFix() bool {
-	spec := &Spec{Query: "Query", Mutation: "Mutation", Types: withBuiltins(
-		TypeSpec{Kind: "object", Name: "Mutation", Req: []string{"a"}, Fields: []FieldSpec{{Name: "touch", Type: "Int"}}},
-		TypeSpec{Kind: "object", Name: "Query", Fields: []FieldSpec{{Name: "ok", Type: "Boolean"}}})}
-	w := &world{orig: expand(spec), F: map[string]bool{}}
-	b, err := buildSchema(spec, w)
-	if err != nil {
-		return false
-	}
-	o := runQuery(b, w, nil, &query{Kind: "probe", Text: "{ __schema { mutationType { name } } }"})
-	return strings.Contains(o.Resp, `"mutationType":null`)
-}
+func rootHidden(spec *Spec, F []string) bool { return false }
 
 // filterGF drops the GetField lines of types that do not exist in the erased schema (there is no
 // object to call GetField on).
@@ -1003,12 +1076,6 @@ func (h *harness) replayAPI(c *Case, verbose bool) string {
 func main() {
 	run := hx.Init("C13")
 	h := &harness{run: run, perClass: map[string]int{}}
-	rootsFixed = probeRootsFix()
-	if rootsFixed {
-		run.Count("library:gated-roots-honoured(fix-04)")
-	} else {
-		run.Count("library:gated-roots-used(F-13f-open)")
-	}
 	if run.ModelPath != "" {
 		m, err := hx.StartModel(run.ModelPath)
 		if err != nil {
@@ -1017,9 +1084,6 @@ func main() {
 		}
 		h.model = m
 		defer m.Close()
-		if rootsFixed {
-			h.ask("(roots filtered)")
-		}
 	}
 	run.SetRule("cases are (schema S accepted by the real schema.New, request feature set F ⊆ features(S) [all subsets], query q) with q an introspection probe (full introspection query, __type(name:) for every type name incl. gated and non-existent ones, types listing, navigation probes through possibleTypes/interfaces) or a type-directed document over S (generated for all features, for F, or for another subset; fragments, type conditions incl. unrelated/gated/unknown types, arguments, variables, directives); distinct = distinct (schema, F, query text); non-trivial = erase(S,F) differs from S (F actually hides a type or a field)")
 
